@@ -58,17 +58,17 @@ CHECKS = {
                      "paths is replaced by time-limited continues under a virtual clock (pause after every step, random "
                      "budgets, one pause at each step position with the guarded calls issued in the gap); unfinished "
                      "slices do not move the abstract position, guarded calls are Rejected, the completing slice must "
-                     "give the unsliced observation (incl. save document), result and concatenated callback log.",
+                     "give the unsliced observation (incl. save document), result and concatenated callback log. Additionally histories in which continues are replaced by time-limited continues (step budgets) are checked against the executable model spec/InkHost.tla: an unfinished slice changes nothing a host may rely on, guarded calls in between are refused, the finishing slice (or a plain continue) is the continue of the model.",
                 note="virtual clock hook (steps instead of milliseconds); base runs of the same build",
-                technique="TLA+ trace validation (InkHostTrace/InkHostAbs) of pause schedules"),
+                technique="TLA+ trace validation (InkHostTrace/InkHostAbs) of pause schedules + TLA+ executable host model (InkHost/InkHostOps) as absolute oracle"),
     "C11": dict(level=MC, ref="5/C11",
                 text="TLC evaluates the rules ContNotifyRule/SetVarNotifyRule (InkHostRules) on every recorded call: the set "
                      "of registered (observer, variable) pairs is tracked by the abstract state, globals are polled before "
                      "and after every call; exactly one notification per changed watched variable, carrying the final "
                      "value, after all external calls; none for unregistered pairs; one immediate notification per watcher "
-                     "for a host assignment; registrations survive reset.",
+                     "for a host assignment; registrations survive reset. Additionally histories with observers registered, re-registered and removed at random are checked against the executable model spec/InkHost.tla: the machine keeps the set of globals assigned a different value in the KEPT part of a continue (rewound look-ahead does not count); every watcher registration is told exactly once with the final value, host assignments tell at once, reset re-initialises and tells every watcher.",
                 note="a continue returning Err is not required to notify; polling sees only committed values",
-                technique="TLA+ trace validation (InkHostTrace + InkHostRules) with observers added/removed at random points"),
+                technique="TLA+ trace validation (InkHostTrace + InkHostRules) with observers added/removed at random points + TLA+ executable host model (InkHost/InkHostOps) as absolute oracle"),
     "C10": dict(level=MC, ref="5/C10",
                 text="TLC enumerates every interleaving of the flows' host operations (spec FlowSched); each schedule is "
                      "replayed on the real runtime (plain, with save + load into a fresh twin, with remove_flow) and "
